@@ -130,6 +130,14 @@ theorem monad_right_identity {s w h argv sp m v s1 w1} (n : Int)
     Exec s w (.io .bind argv sp (some (m, .builtin n, none))) h (.strict v) s1 w1 :=
   exec_right_identity n hn hv hio h1
 
+/-- … and for every *completely evaluated* result — values without components and lists of completely evaluated values, nested to
+any depth `d` (`DeepN d v`): ㄱㅅ's complete evaluation of its argument finds nothing left to evaluate -/
+theorem monad_right_identity_deep {s w h argv sp m v s1 w1} (n : Int) (d : Nat)
+    (hn : encodeNumber n = [0, 6]) (hv : DeepN d v) (hio : v.isIO = false)
+    (h1 : Exec s w m h (.strict v) s1 w1) :
+    Exec s w (.io .bind argv sp (some (m, .builtin n, none))) h (.strict v) s1 w1 :=
+  exec_right_identity_deep n d hn hv hio h1
+
 /-- **sequencing of a left-nested bind**: `(m ㄱㄹ f) ㄱㄹ g` executes `m`, then the action of `f`, then the action of `g` -/
 theorem monad_sequencing {s w h argv argv' sp sp' m f g a s1 w1 r s2 w2 rv s3 w3 b s4 w4 r' s5 w5 rv' s6 w6 res s7 w7}
     (hf : checkCallee isBuiltinName sp' f false = Comp.ret ())
@@ -154,5 +162,17 @@ example (s : Store) (w : World) (sp : Span) :
 example (s : Store) (w : World) (sp : Span) :
     Exec s w (.io .bind [] sp (some (.io .ret [.strict (.int 7)] sp none, .builtin (-48), none))) 1 (.strict (.int 7)) s w :=
   monad_right_identity (-48) (by decide +kernel) rfl rfl (exec_return s w 1 sp (.int 7) rfl)
+
+/-- a closed instance with a nested result: `(ㄱㅅ [1, [2]]) ㄱㄹ ㄱㅅ` yields `[1, [2]]` and touches nothing -/
+example (s : Store) (w : World) (sp : Span) :
+    Exec s w (.io .bind [] sp (some (.io .ret [.strict (.list [.strict (.int 1), .strict (.list [.strict (.int 2)])])] sp none,
+      .builtin (-48), none))) 1 (.strict (.list [.strict (.int 1), .strict (.list [.strict (.int 2)])])) s w := by
+  refine monad_right_identity_deep (-48) 2 (by decide +kernel) ?_ rfl (exec_return s w 1 sp _ rfl)
+  refine Or.inr ⟨[.int 1, .list [.strict (.int 2)]], rfl, ?_⟩
+  intro x hx
+  simp only [List.mem_cons, List.not_mem_nil, or_false] at hx
+  rcases hx with rfl | rfl
+  · exact Or.inl rfl
+  · exact Or.inr ⟨[.int 2], rfl, fun y hy => by simp only [List.mem_cons, List.not_mem_nil, or_false] at hy; subst hy; rfl⟩
 
 end UH.NatSemIOP
